@@ -7,8 +7,10 @@
   Go `int` = `Int`, a Go panic = `none`).  Every definition follows the Go source expression by
   expression and is written in the same shape the extractor `translator_c06` emits, so that
   the tie `S2.Shapes.X.f = S2.Generated.X.f` (S2Proofs/Ties/C06.lean) is closed by `rfl`.  The Go
-  text is quoted above each definition.  `Polygon.Edge / Chain / ChainPosition` (search loops the
-  extractor does not handle) are modelled by hand only.
+  text is quoted above each definition.  `Polygon.Edge / Chain / ChainPosition` are modelled by
+  structural recursion over the slices (`linSearch`, `cumSearch`, `sumLens`); the extractor emits them
+  with the fuelled loop primitives of S2/ShapesLoops.lean and S2Proofs/Ties/C06_Polygon.lean PROVES the
+  two equal (these three ties are theorems by induction, not `rfl`).
 
   The model is FAITHFUL to the current tree, including three defects (D11 LaxLoop.ChainEdge,
   D12 PointVector.ChainEdge, D13 LaxPolygon.ChainPosition); the repaired accessors are the
